@@ -1082,7 +1082,7 @@ fn main() -> std::process::ExitCode {
         "C08",
         "histories of 1-60 store/load/clone/set_permissions/permissions/==/invalid-width operations over up to 4 live paged memories (V = il::Constant or il::Expression, both endiannesses, with or without a 1-3 section backing), addresses clustered +-24 around page boundaries, 0, backing and store edges, 2^32, 2^63 and the top of the address space, widths 8..128 and 256 bits; every load, permissions and == result is compared with a per-memory byte-map overlay over the backing's byte map, plus a final sweep of every touched byte +-2 (8 bits everywhere, 16/32/64 bits at seams) through every live memory; non-trivial = some store cut an earlier value or crossed a 1024-byte page boundary and a later load operation covered that seam; distinct = (V, endianness, backing, multiset capped at 3 of (operation, overlap class or load shape, width))",
         Box::new(|_t: Tier| from_tape(900, decode)),
-        |t| t.pick(150_000, 10_000_000),
+        |t| t.pick(150_000, 4_000_000),
         check,
     );
     spec.render = render;
